@@ -21,6 +21,9 @@ purity and thread-safety reduce to *who may write what, in which phase*:
     (4) the lists returned by get_fields()/get_sync_*() are only iterated.
 Effects inside user callbacks are not decided; interleavings are not enumerated --
 absence of shared writes makes enumeration unnecessary for the built-in fields.
+
+Round 4: nothing of one class is stored in the namespace of the generated module (shared by
+same-named classes through sys.modules).
 """
 import ast
 
